@@ -10,11 +10,11 @@ git -C /repo worktree remove --force $wt 2>/dev/null; rm -rf $wt
 git -C /repo worktree add -q --detach $wt HEAD || exit 2
 git -C $wt apply $here/seeded/$id/patch.diff || { echo "patch does not apply"; git -C /repo worktree remove --force $wt; exit 2; }
 cd "$here"
-mkdir -p /tmp/sr-out
+mkdir -p /tmp/sr-out-$id
 for c in "$@"; do
-  out=$(VERIF_REPO=$wt VERIF_EVIDENCE_DIR=/tmp/sr-out VERIF_REPLAY_DIR=/tmp/sr-out VERIF_WORK_SUFFIX=-seed ./vcheck run $c 2>&1); rc=$?
+  out=$(VERIF_REPO=$wt VERIF_EVIDENCE_DIR=/tmp/sr-out-$id VERIF_REPLAY_DIR=/tmp/sr-out-$id VERIF_WORK_SUFFIX=-seed ./vcheck run $c 2>&1); rc=$?
   echo "SEED $id CHECK $c rc=$rc :: $(echo "$out" | grep -E '^check' | head -1)"
   echo "$out" | grep -A2 VIOLATION | grep -v "have:\|want:" | cut -c1-400 | head -5
   [ $rc = 2 ] && echo "$out" | tail -5
 done
-git -C /repo worktree remove --force $wt; rm -rf $wt /tmp/sr-out
+git -C /repo worktree remove --force $wt; rm -rf $wt /tmp/sr-out-$id
